@@ -245,6 +245,28 @@ type SelfMap struct {
 	Kids map[string]SelfMap `json:"kids"`
 }
 
+// Cycles that pass through a NAMED map, slice or pointer type while every struct
+// on the cycle is anonymous.
+type TreeMap map[string]struct {
+	Kids TreeMap `json:"kids"`
+}
+type AnonCycleMap struct {
+	T TreeMap `json:"t"`
+}
+type TreeSlice []struct {
+	Kids TreeSlice `json:"kids"`
+}
+type AnonCycleSlice struct {
+	T TreeSlice `json:"t"`
+}
+type NodePtr *struct {
+	V    int64   `json:"v"`
+	Next NodePtr `json:"next"`
+}
+type AnonCyclePtr struct {
+	P NodePtr `json:"p"`
+}
+
 type Unsupported struct {
 	U uint32 `json:"u"`
 }
@@ -283,6 +305,9 @@ func init() {
 	reg[MutualA]("MutualA", false)
 	reg[SelfSlice]("SelfSlice", false)
 	reg[SelfMap]("SelfMap", false)
+	reg[AnonCycleMap]("AnonCycleMap", false)
+	reg[AnonCycleSlice]("AnonCycleSlice", false)
+	reg[AnonCyclePtr]("AnonCyclePtr", false)
 	reg[Unsupported]("Unsupported", false)
 	reg[WithArray]("WithArray", false)
 	reg[WithIface]("WithIface", false)
